@@ -147,7 +147,9 @@ func (e *vsEnv) listing(withHash bool) string {
 		}
 		rel, _ := filepath.Rel(e.stageDir, p)
 		ext := filepath.Ext(rel)
-		if ext == compExt {
+		if ext == compExt || ext == ".lck" {
+			// companions are listed separately; a <name>.cmp.lck left by a crash inside
+			// WriteJSON is inert (overwritten by the next companion write)
 			return nil
 		}
 		if withHash {
@@ -440,7 +442,121 @@ type vsFile struct {
 	time                int64
 }
 
+// directed scenarios: the state of a predecessor A when its successor B is
+// validated (C04), and stale partials of files in every state when the cleaner
+// runs, followed by a restart (C20)
+func verifStageMatrix(r *gen.Rand) []vsOp {
+	now := time.Now().Unix()
+	mk := func(name, prev string, size int) vsFile {
+		c := make([]byte, size)
+		for j := range c {
+			c[j] = byte(1 + r.Intn(250))
+		}
+		return vsFile{name: name, prev: prev, content: c, hash: vsMD5(c), time: now - int64(r.Intn(3000))}
+	}
+	names := [][3]string{{"g.1", "g.2", "g.3"}, {"a", "ab", "abc"}, {"d/a", "d/b", "d/e/c"}, {"x", "a/x", "x.x"}}[r.Intn(4)]
+	A := mk(names[0], "", 2+r.Intn(8))
+	B := mk(names[1], names[0], 2+r.Intn(8))
+	C := mk(names[2], names[1], 2+r.Intn(8))
+	if r.Chance(1, 3) {
+		C.prev = A.name // two successors of one predecessor
+	}
+	var ops []vsOp
+	ops = append(ops, vsOp{kind: "SQ", name: "warm/up", num: -3600})
+	part := func(f vsFile, b, e int) vsPart {
+		return vsPart{name: f.name, renamed: f.renamed, prev: f.prev, hash: f.hash, size: int64(len(f.content)), beg: int64(b), end: int64(e), time: f.time}
+	}
+	send := func(f vsFile, b, e int, corrupt bool) {
+		d := append([]byte{}, f.content[b:e]...)
+		if corrupt {
+			d[0] ^= 0x5a
+		}
+		ops = append(ops, vsOp{kind: "PR", part: vsPart{name: f.name, size: int64(len(f.content))}})
+		ops = append(ops, vsOp{kind: "RC", part: part(f, b, e), data: d})
+	}
+	whole := func(f vsFile, corrupt bool) {
+		h := len(f.content) / 2
+		if h > 0 && r.Chance(1, 2) {
+			if r.Chance(1, 2) {
+				send(f, h, len(f.content), false)
+				send(f, 0, h, corrupt)
+			} else {
+				send(f, 0, h, corrupt)
+				send(f, h, len(f.content), false)
+			}
+		} else {
+			send(f, 0, len(f.content), corrupt)
+		}
+	}
+	poll := func(fs ...vsFile) {
+		for _, f := range fs {
+			ops = append(ops, vsOp{kind: "SQ", name: f.name, num: -3600})
+		}
+	}
+	cond := r.Intn(8)
+	switch cond {
+	case 0: // A never announced
+	case 1: // A prepared only
+		ops = append(ops, vsOp{kind: "PR", part: vsPart{name: A.name, size: int64(len(A.content))}})
+	case 2: // A partly received
+		send(A, 0, 1, false)
+	case 3: // A complete but corrupted: fails validation
+		whole(A, true)
+	case 4: // A valid but itself held for a missing predecessor
+		A.prev = "zz/missing"
+		whole(A, false)
+	case 5: // A delivered
+		whole(A, false)
+	case 6: // A delivered in an earlier run (known from the log only)
+		whole(A, false)
+		ops = append(ops, vsOp{kind: "ST"}, vsOp{kind: "RS"})
+	case 7: // A failed, then the receiver restarted
+		whole(A, true)
+		ops = append(ops, vsOp{kind: "ST"}, vsOp{kind: "RS"})
+	}
+	ops = append(ops, vsOp{kind: "ST"})
+	whole(B, false)
+	ops = append(ops, vsOp{kind: "ST"})
+	poll(A, B)
+	if r.Chance(1, 2) {
+		whole(C, false)
+		ops = append(ops, vsOp{kind: "ST"})
+		poll(C)
+	}
+	// stale late duplicate of the held / delivered B, cleaning, restart
+	if r.Chance(1, 2) {
+		send(B, 0, 1, false)
+		ops = append(ops, vsOp{kind: "AG", name: B.name}, vsOp{kind: "CL"})
+		if r.Chance(1, 2) {
+			ops = append(ops, vsOp{kind: "RS"})
+		}
+		poll(A, B)
+	} else if r.Chance(1, 3) {
+		ops = append(ops, vsOp{kind: "CL"})
+	}
+	if r.Chance(1, 4) {
+		ops = append(ops, vsOp{kind: "RS"})
+	}
+	// now A is (re)sent properly
+	if cond != 5 && cond != 6 {
+		if cond == 4 {
+			A.prev = "zz/missing"
+		}
+		whole(A, false)
+	}
+	ops = append(ops, vsOp{kind: "ST"})
+	poll(A, B, C)
+	if cond == 4 && r.Chance(1, 2) {
+		ops = append(ops, vsOp{kind: "CL"})
+	}
+	ops = append(ops, vsOp{kind: "SC"}, vsOp{kind: "ST"})
+	return ops
+}
+
 func verifStageGen(r *gen.Rand) []vsOp {
+	if r.Chance(1, 4) {
+		return verifStageMatrix(r)
+	}
 	now := time.Now().Unix()
 	names := []string{"a", "b", "ab", "ba", "d/a", "d/b", "d/e/a", "c.x", "g.1", "g.2", "g.3"}
 	nf := 1 + r.Intn(4)
